@@ -77,7 +77,7 @@ fn ledger_record(pos: &str, e: &str) -> String {
         let arena = Bump::new();
         let mut ctx = ReportContext::new(&arena);
         let files: proc::Files = vec![("/r/main.ledger".to_string(), full)];
-        let opts = report::ProcessOptions { price_db_path: None };
+        let opts = { let mut o = report::ProcessOptions::default(); o.price_db_path = None; o };
         let res = report::process(&mut ctx, proc::fake_loader(&files, "/r/main.ledger"), &opts);
         let rec = match res {
             Ok(ledger) => match ledger.transactions().next() {
@@ -110,7 +110,7 @@ pub fn run(_args: &[String], out: &mut dyn Write) -> i32 {
     let arena = Bump::new();
     let mut ctx = ReportContext::new(&arena);
     let files: proc::Files = vec![("/r/main.ledger".to_string(), DECLS.to_string())];
-    let opts = report::ProcessOptions { price_db_path: None };
+    let opts = { let mut o = report::ProcessOptions::default(); o.price_db_path = None; o };
     let mut ledger = match report::process(&mut ctx, proc::fake_loader(&files, "/r/main.ledger"), &opts) {
         Ok(l) => l,
         Err(e) => {
